@@ -114,10 +114,11 @@ SHAPES = {
     "fork": [[], [0], [0]],
     "join": [[], [], [0, 1]],
     "diamond": [[], [0], [0], [1, 2]],
+    "chain4": [[], [0], [1], [2]],
 }
 
 
-def op_profile(name, tps, small=0.5, over=3.0, huge=1e6):
+def op_profile(name, tps, small=0.5, over=3.0, huge=1e6, over2=6.0):
     """named operator profiles (one segment each unless stated)"""
     d = lambda k: k / tps
     if name == "s1":
@@ -128,12 +129,18 @@ def op_profile(name, tps, small=0.5, over=3.0, huge=1e6):
         return [dict(cpu=d(3), scaling="const", mem=small, read=0)]
     if name == "over":      # over any first allocation of the small pools, under the doubled one
         return [dict(cpu=d(2), scaling="const", mem=over, read=0)]
+    if name == "over2":     # over the doubled first allocation, under the quadrupled one
+        return [dict(cpu=d(2), scaling="const", mem=over2, read=0)]
     if name == "m3":        # 3 GB for two ticks: several of them overflow a small overcommitted pool
         return [dict(cpu=d(2), scaling="const", mem=3.0, read=0)]
     if name == "huge":      # never fits
         return [dict(cpu=d(1), scaling="const", mem=huge, read=0)]
     if name == "grow":      # grows 20/tps per tick for 2 ticks then holds
         return [dict(cpu=d(1), scaling="const", mem=None, read=20.0 * 2 / tps)]
+    if name == "io2":       # two ticks of reading, no compute tick, fixed small memory
+        return [dict(cpu=0.0, scaling="const", mem=small, read=20.0 * 2 / tps)]
+    if name == "c1io1":     # two segments: one compute tick, then one tick of reading
+        return [dict(cpu=d(1), scaling="const", mem=small, read=0), dict(cpu=0.0, scaling="const", mem=small, read=20.0 / tps)]
     if name == "z":         # rounds to zero ticks
         return [dict(cpu=0.0, scaling="const", mem=small, read=0)]
     raise KeyError(name)
@@ -164,7 +171,7 @@ def horizon_of(combo, tps, extra=6):
     for pr, ar, sh, pf in combo:
         for i in range(len(SHAPES[sh])):
             name = pf[i % len(pf)]
-            h += {"s1": 1, "s2": 2, "s3": 3, "over": 4, "huge": 3, "grow": 4, "z": 1, "m3": 2}.get(name, 2)
+            h += {"s1": 1, "s2": 2, "s3": 3, "over": 4, "over2": 6, "huge": 3, "grow": 4, "z": 1, "m3": 2}.get(name, 2)
     return min(h, 36)
 
 
@@ -202,6 +209,24 @@ def space(kind, tier, seed=0):
                 over = (max(1, int(cfg[2] / 10)) + 0.5) if algo.startswith("priority") else (5.0 if algo in ("naive", "starter") else 3.0)
                 for combo in wl + wl2:
                     out.append((algo, cfg, combo, tps, dict(over=over)))
+        return out
+    if kind.startswith("deep:"):
+        # retry chains with progress: a container fails, its retry gets further and fails again (twice doubled)
+        algo = kind[5:]
+        cfgs = [(2, 10, 25, True, False), (2, 20, 40, True, False)] if algo == "priority-pool" else [(1, 10, 25, True, False), (2, 20, 40, True, False)]
+        import itertools as _it
+        for tps in (1,):
+            for cfg in cfgs:
+                j = max(1, int(cfg[2] / 10))
+                kw = dict(over=j + 0.5, over2=2 * j + 0.5)
+                profsets = sorted(set(_it.permutations(("s1", "over", "over2", "s1"), 4)) | set(_it.permutations(("s1", "over", "over2"), 3)))
+                for shape in ("chain3", "chain4", "diamond", "fork"):
+                    for pf in profsets:
+                        if len(pf) > len(SHAPES[shape]):
+                            continue
+                        for pr in ("Q", "I", "B"):
+                            out.append((algo, cfg, ((pr, 0, shape, pf),), tps, kw))
+                            out.append((algo, cfg, ((pr, 0, shape, pf), ("I" if pr != "I" else "B", 1, "single", ("s3",))), tps, kw))
         return out
     if kind.startswith("busy:"):
         # a busy pool: 4-5 single-operator pipelines of ONE class (long fillers, OOM->retry candidates, short ones)
